@@ -318,24 +318,28 @@ theorem compile_wellformed (env : Env) (file : AFile) (n0 : Nat) (G : List Strin
 
 /-- **T2, typing half `compile_wellformed_typed_partial`**: for a function `f` of a closed set `G` that is inside the part
     of the fragment the typing half covers (`stdFn`: parameters, result and every annotation are unit / bool / string / an
-    integer type of a Go width / a struct type — closure environments included — / a function type / a reference, tuple or
-    array of those; operators; calls of functions of `G` — also through a local of function type, also with function names
-    as arguments —, of the printing builtins and of the reference and array helpers (`ref__T`, `ref_get__T`, `ref_set__T`,
-    `array_get__T`, `array_set__T`: an index of type `int32`, the helper's parameter type); construction and field access of
-    admitted structs, tuples (of a tuple type whose struct the file declares) and arrays; `let`, `if`, `while`),
-    in a file whose struct declarations carry the Go types of the fields (`typedTablesOK`: decidable, on the model's own
-    output), the compiled Go function obeys the **typing** rules of `Go.check` — every expression has the Go type of its
-    ANF annotation (up to `norm`: the result type of a call is the normalised one), operands agree, conditions are `bool`,
-    call arguments, fields and elements of composite literals, assignments, initialisers and the `return` are assignable,
-    integer literals fit their type, expression statements are calls, the body ends in a `return` — in the typing context
-    of the emitted file.
-    *Partial* in two ways: (i) not all of the fragment (enum values and `match`, trait objects and `go` are not covered
-    yet; `Vec` operations and `string_len` cannot be: the mirror answers
-    "unknown" on `append`, `len` and conversions); (ii) `Go.check` itself is written with `partial def`s, opaque to the
-    kernel, so the statement is about its total mirror `GoTyping.fnOKT` (`Model/GoTyping.lean`), which `gomlmodel gocomp`
-    compares with `Go.check` on every function of every real emitted file on every run (0 disagree).  No separate `Wt`
-    hypothesis: the fragment check `fragA` is itself a type checker of the ANF (every variable at its binder's type, every
-    operator and call at its signature) and is what the proof uses. -/
+    integer type of a Go width / a struct type — closure environments included — / an enum type / a function type / a
+    reference, tuple or array of those; operators; calls of functions of `G` — also through a local of function type, also
+    with function names as arguments —, of the printing builtins and of the reference and array helpers (`ref__T`,
+    `ref_get__T`, `ref_set__T`, `array_get__T`, `array_set__T`: an index of type `int32`, the helper's parameter type);
+    construction and field access of admitted structs, enum variants, tuples (of a tuple type whose struct the file
+    declares) and arrays; `let`, `if`, `while`; `match` on an enum variable that no enclosing arm has narrowed already
+    (Go rejects a type switch on a variable of struct type: the known C02 finding), on a literal, on unit),
+    in a file whose struct declarations carry the Go types of the fields and whose variant structs have the methods of
+    their enum's interface (`typedTablesOK`: decidable, on the model's own output), the compiled Go function obeys the
+    **typing** rules of `Go.check` — every expression has the Go type of its ANF annotation (up to `norm`: the result type
+    of a call is the normalised one) or, for a value of enum type, the struct type of one of its variants (a variable inside
+    the arm of a type switch on it, a variant literal: assignable to the enum's interface by its method set); operands
+    agree, conditions are `bool`, a type switch is on an interface, case labels have the scrutinee's type, payload fields
+    are read from the variant's struct, call arguments, fields and elements of composite literals, assignments,
+    initialisers and the `return` are assignable, integer literals fit their type, expression statements are calls, the body
+    ends in a `return` — in the typing context of the emitted file.
+    *Partial* in two ways: (i) not all of the fragment (trait objects and `go` are not covered; `Vec` operations and
+    `string_len` cannot be: the mirror answers "unknown" on `append`, `len` and conversions); (ii) `Go.check` itself is
+    written with `partial def`s, opaque to the kernel, so the statement is about its total mirror `GoTyping.fnOKT`
+    (`Model/GoTyping.lean`), which `gomlmodel gocomp` compares with `Go.check` on every function of every real emitted file
+    on every run (0 disagree).  No separate `Wt` hypothesis: the fragment check `fragA` is itself a type checker of the ANF
+    (every variable at its binder's type, every operator and call at its signature) and is what the proof uses. -/
 theorem compile_wellformed_typed_partial (env : Env) (file : AFile) (n0 : Nat) (G : List String)
     (hG : closedOK env file n0 G = true) (hT : typedTablesOK env file n0 = true) (f : AFn) (hf : f ∈ file) (hfG : f.name ∈ G)
     (hstd : stdFn env file f = true) :
@@ -344,7 +348,7 @@ theorem compile_wellformed_typed_partial (env : Env) (file : AFile) (n0 : Nat) (
   have hl := link_of_closed hG (P := progOf file) rfl
   obtain ⟨st, hfind, hlocal⟩ := hl.fnGo f hf hfG
   simp only [typedTablesOK, Bool.and_eq_true] at hT
-  exact ⟨_, hfind, fn_typed (tlink_of_link hl hT.1 hT.2) hlocal hstd⟩
+  exact ⟨_, hfind, fn_typed (tlink_of_link hl hT.1.1 hT.1.2 hT.2) hlocal hstd⟩
 
 /-! ## non-vacuity: a concrete file inside the fragment -/
 section Examples
@@ -436,6 +440,9 @@ example : InGoFragment envE exFileE 0 exGet ∧ InGoFragment envE exFileE 0 exMk
   refine ⟨?_, ?_, ?_⟩ <;> (unfold InGoFragment; decide +kernel)
 example : (Sem.run 200 (progOf exFileE)).status = "ok" ∧ (Sem.run 200 (progOf exFileE)).out = "five\ndone\n" := by
   decide +kernel
+/-- and the typing half of T2 applies to all three (type switch with the payload read in the arm, value switch, unit match) -/
+example : stdFn envE exFileE exGet = true ∧ stdFn envE exFileE exMkSome = true ∧ stdFn envE exFileE exMainE = true ∧
+    typedTablesOK envE exFileE 0 = true := by decide +kernel
 /-- the same local in two clauses of a `match` is inside (each clause is its own Go block: `scopedLocalsOK`), declared
     twice in one block it is outside (Go rejects the redeclaration) -/
 private def exGet2 : AFn :=
